@@ -69,3 +69,26 @@ Example C12_instance :
   | None => False
   end.
 Proof. vm_compute. split; [reflexivity|repeat constructor]. Qed.
+
+(* ---------- the alphabet header of the Huffman, ANS and range codecs (EncodeAlphabet / DecodeAlphabet) ---------- *)
+From Coq Require Import Sorted.
+From KV Require Import Model.InBS Model.Container Model.Alphabet Proofs.OutBSProofs Proofs.ArrayProofs Proofs.ReadArrayProofs
+  Proofs.MirrorArrayProofs Proofs.ContainerProofs Proofs.AlphabetProofs.
+(* for EVERY strictly increasing list of byte values (none, all 256, or any subset), written first in a bit stream
+   with any program of further writes behind it, any buffer sizes on both sides and any short-read schedule of the
+   source: DecodeAlphabet returns exactly the alphabet and consumes exactly the header - what follows is read as written *)
+Theorem C12_alphabet_header_roundtrip : forall wbuf rbuf sched alpha ops rest cap,
+  StronglySorted N.lt alpha -> Forall (fun x => x < 256) alpha -> encode_alphabet alpha = Some ops -> (length alpha <= cap)%nat ->
+  40 <= wbuf -> wbuf mod 8 = 0 -> 0 < rbuf -> rbuf mod 8 = 0 -> Forall aop_ok rest ->
+  exists s1 s2 s', run_aops (new_obs wbuf) (map conv ops ++ rest) = (s1, false) /\ close healthy s1 = (s2, false) /\
+    decode_alphabet (new_ibs rbuf (mkSrc (o_out s2) sched None 0)) cap = (s', AOk alpha) /\
+    run_arops s' (arops_of rest) = avals_of rest.
+Proof. exact alphabet_stream_roundtrip. Qed.
+Print Assumptions C12_alphabet_header_roundtrip.
+
+Example C12_alphabet_instance :
+  alphabet_image [1; 2; 65; 66; 200] = Some [228; 24; 0; 0; 0; 0; 0; 0; 0; 24; 0; 0; 0; 0; 0; 0; 0; 0; 0; 0; 0; 0; 0; 0; 0; 0; 4] /\
+  alphabet_parse 256 [228; 24; 0; 0; 0; 0; 0; 0; 0; 24; 0; 0; 0; 0; 0; 0; 0; 0; 0; 0; 0; 0; 0; 0; 0; 0; 4] = AOk [1; 2; 65; 66; 200] /\
+  alphabet_parse 4 [228; 24; 0; 0; 0; 0; 0; 0; 0; 24; 0; 0; 0; 0; 0; 0; 0; 0; 0; 0; 0; 0; 0; 0; 0; 0; 4] = AErrSize /\
+  alphabet_parse 256 [228; 24; 0] = APanic.
+Proof. vm_compute. repeat split; reflexivity. Qed.
